@@ -41,7 +41,7 @@ ASSUMPTIONS = ['CPython\'s unpickler is a deterministic function of the bytes it
 EXHAUSTIVE = {'quick': False, 'thorough': True}
 TRUSTED_EXTRA = ['os.truncate on a copy of the written file reproduces a crash at that byte']
 N = {'quick': 48, 'thorough': 200}
-SMALL_REC = 4500      # quick: files whose record part is at most this long are cut at every offset inside the records
+SMALL_REC = 3000      # quick: files whose record part is at most this long are cut at every offset inside the records
 NHEAD = 150           # quick: sampled offsets inside the header of such a file (plus the header frame boundaries +-2)
 NSAMPLE = 400
 NH = 3                # header pickles written by FitInfoFile.write
